@@ -9,10 +9,22 @@ CHECKS = {
          "Every one of the 191,491,529 representable dates is enumerated in chronological order on every run and all forms, the four constructors and the successor relation are compared with an independent calendar; constructor argument grids (years MIN-2..MAX+2 x month 0..15 x day 0..35, ordinal 0..370, week 0..55 x 7) are enumerated completely, the full-i32/u32 argument space is sampled with edge bias; thorough adds all 2^32 day numbers. Exhaustive for the date domain, sampled for extreme arguments.",
          "Trusted base: the ~150-line reference calendar in harness/src/refmodel/cal.rs (self-checked against fixed anchors) and rustc integer arithmetic.",
          "DESIGN.md section 3 C01"),
+ "C02": ("proptest (edge-biased i64 counts per unit and u32 nanosecond fields; reverse direction from calendar fields) differential against floor arithmetic on i128 instants + R-cal",
+         "from_timestamp / _millis / _micros / _nanos and the zone-generic wrappers are compared, case by case, with floor division on an i128 instant and an independent calendar (fields, acceptance, read-back, timestamp_nanos_opt absence exactly outside 64 bits); the reverse direction builds date-times from calendar fields and checks every accessor and the SystemTime round trip. Millions of cases per run, biased to range ends, the i64-nanosecond window, negative sub-second counts and leap nanosecond fields.",
+         "Trusted base: R-cal / R-inst (harness/src/refmodel). SystemTime values are built independently with UNIX_EPOCH +/- Duration.",
+         "DESIGN.md section 3 C02"),
+ "C03": ("proptest (date-times biased to range ends/year ends, durations aimed exactly at MAX-a / MIN-a, day counts to u64::MAX, iterator traversals near the range ends) differential against i128 instant arithmetic",
+         "checked_add/sub_signed, signed_duration_since, operators (incl. std Duration and assign forms) on NaiveDateTime, NaiveDate and DateTime<FixedOffset>, checked_add/sub_days and the day/week iterators are compared with exact i128 arithmetic on instants and day numbers; failure is demanded exactly when the exact result is unrepresentable and operators must panic exactly then. Sampled with boundary-aimed generators, not exhaustive.",
+         "Trusted base: R-cal / R-inst; operand values are built through constructors that C01/C07 verify.",
+         "DESIGN.md section 3 C03"),
  "C06": ("proptest (edge-biased i128 model values, limit-straddling operand pairs) differential against exact i128 arithmetic, range invariant on every returned value",
          "Every constructor, accessor, checked/operator arithmetic form, Sum, std conversion and the Display text of TimeDelta is compared with exact i128 nanosecond arithmetic on millions of generated cases per run, with generators that aim operands at the range limits, at unit-constructor limits and at products that straddle the limit; every returned duration is re-read and must lie in the closed range. Sampled, not exhaustive.",
          "Trusted base: i128 arithmetic in the harness (harness/src/props/c06.rs); TimeDelta values are observed only through num_seconds/subsec_nanos, whose mutual consistency is itself checked.",
          "DESIGN.md section 3 C06"),
+ "C07": ("proptest over times incl. leap representations on any second and durations aimed at the leap-second edges, differential against a one-leap-second timeline model (R-leap) pinned by the documented examples",
+         "The validity predicate of all five constructors, accessors and single-field replacement, overflowing_add/sub_signed with day carry, wrapping operators, signed_duration_since (antisymmetry), offset shifts and NaiveDateTime arithmetic with leap operands are compared with an explicit timeline model in which the operand's leap second is the only one; the model itself is asserted against the documented examples at start-up.",
+         "Trusted base: R-leap model in harness/src/props/c07.rs (~40 lines), validated against the fourteen documented examples on every run.",
+         "DESIGN.md section 3 C07"),
  "C19": ("exhaustive enumeration (7 weekdays, 12 months, 128x128 sets, 128x7x128 iteration interleavings, all name/letter-case masks, all integers in +/-70000 and 2^k neighbourhoods) + proptest integers/strings, against modular arithmetic and a bit/deque set model",
          "The finite part (cycles, numbering, all pairs of weekday sets, every front/back interleaving of every set from every start day, every letter-case variant, prefix and one-letter extension of every name) is enumerated completely on every run; numeric conversions are checked for every FromPrimitive entry point on enumerated neighbourhoods and random i64/u64 values biased to values congruent to valid numbers modulo 2^8/2^16/2^32; strings by mutation and arbitrary Unicode including case-folding look-alikes.",
          "Trusted base: literal name tables and modular arithmetic in harness/src/props/c19.rs.",
